@@ -27,7 +27,7 @@ static std::string gen_message(Rng &r, const Cfg &c, std::string &desc)
         const LeafCfg &L = c.leaf;
         std::string pre = prefixes[r.below(prefixes.size())];
         std::string n = L.order[r.below(L.order.size())];
-        std::string a = pre + n;
+        std::string a = pre + L.pname(n);
         if(n == "preset") { int v = (int)r.below(2); rtosc_message(buf, sizeof buf, a.c_str(), "i", v); desc = a + fmt(" %d", v); }
         else if(n == "a") { int v = r.chance(0.2) ? (r.chance(0.5) ? L.a_min - 5 : L.a_max + 5) : (int)r.range(L.a_min, L.a_max); if(r.chance(0.3)) v = (int)r.range(-12, 130); rtosc_message(buf, sizeof buf, a.c_str(), "i", v); desc = a + fmt(" %d", v); }
         else if(n == "b") { float v = (float)r.range(-440, 440) / 4; rtosc_message(buf, sizeof buf, a.c_str(), "f", v); desc = a + fmt(" %g", v); }
@@ -77,7 +77,7 @@ static void expect_leaf(const Leaf &l, const LeafCfg &L, const std::string &pre,
         else if(n == "on") differs = l.on != L.on_def;
         else if(n == "mode") differs = l.mode != L.mode_def;
         else if(n == "val") differs = l.val != L.val_def;
-        if(differs) out.insert(pre + n);
+        if(differs) out.insert(pre + L.pname(n));
     }
 }
 static std::set<std::string> expected_lines(const Root &r, const Cfg &c)
@@ -157,7 +157,7 @@ static void make_world(Rng &r, World &w, int nmsg_max, bool focus = false)
             auto send = [&](const std::string &name, const char *types, int iv, float fv) {
                 if(!L.has(name.substr(0, name.find_first_of("0123456789")))) return;
                 char buf[128];
-                std::string a = pre + name;
+                std::string a = pre + L.pname(name);
                 if(types[0] == 'i') rtosc_message(buf, sizeof buf, a.c_str(), "i", iv); else if(types[0] == 'f') rtosc_message(buf, sizeof buf, a.c_str(), "f", fv); else rtosc_message(buf, sizeof buf, a.c_str(), types);
                 Quiet q; q.obj = &w.state; q.loc = loc; q.loc_size = sizeof loc;
                 Root::ports.dispatch(buf, q, true);
@@ -179,7 +179,7 @@ static std::string cfg_desc(const Cfg &c)
 {
     std::string s = "leaf ports:";
     for(auto &n : c.leaf.order) s += " " + n;
-    s += fmt(" | a_dep=%d b_dep=%d arr_dep=%d enable_placement=%d many=%d ptr=%d%s top=%d toggle=%s", c.leaf.a_depends, c.leaf.b_depends, c.leaf.arr_depends, c.enable_placement, c.has_many, c.has_ptr, c.ptr_gated ? "(gated)" : "", c.has_top, c.en_name.c_str());
+    s += fmt(" | a_dep=%d b_dep=%d arr_dep=%d enable_placement=%d many=%d ptr=%d%s top=%d toggle=%s val=%s", c.leaf.a_depends, c.leaf.b_depends, c.leaf.arr_depends, c.enable_placement, c.has_many, c.has_ptr, c.ptr_gated ? "(gated)" : "", c.has_top, c.en_name.c_str(), c.leaf.val_name.c_str());
     return s;
 }
 
@@ -244,7 +244,8 @@ static void run_reject(Rng &r)
     std::string bad = file, how;
     switch(r.below(6)) {
         case 0: bad.replace(0, 9, "% NOT OSC"); how = "wrong first header"; break;
-        case 1: { size_t p = bad.find(APP); bad.replace(p, strlen(APP), "other-app"); how = "another application's name"; break; }
+        case 1: { static const char *N[] = {"other-app", "zoo-ap", "zoo", "z", "zoo-app2", "zoo-apps", "Zoo-app", "zoo-apP", "oo-app", "xzoo-app"}; const char *nm = N[r.below(10)];
+                  size_t p = bad.find(APP); bad.replace(p, strlen(APP), nm); how = std::string("another application's name: ") + nm; break; }
         case 2: bad = bad.substr(bad.find('\n') + 1); how = "first header line missing"; break;
         case 3: { static const char *J[] = {"/vol $1", "/mid/x [1 2", "/vol 1 2 ... x", "/top/a 'ab'", "/vol \"unterminated"}; const char *j = J[r.below(5)]; bad += std::string("\n") + j; how = std::string("unparsable line ") + j; break; }
         case 4: { static const char *J[] = {"/nonexistent 1", "/mid/nothere 2", "/vol \"a string\"", "/mid/many7/a 1"}; const char *j = J[r.below(4)]; bad += std::string("\n") + j; how = std::string("line no port accepts: ") + j; break; }
